@@ -12,8 +12,12 @@
 EXTENDS CoreTrace
 
 VARIABLES faultSeen,    \* a fault was injected since the last heal
-          dirtyCommit   \* a commit failed and the caller kept the writer (recorded finding F40)
-fvars == <<vars, faultSeen, dirtyCommit>>
+          dirtyCommit,  \* a commit failed and the caller kept the writer (recorded finding F40)
+          wfault        \* a fault has fired since the current writer object was created (or rolled back):
+                        \* only then may its calls fail; after a successful rollback / re-open the writer
+                        \* "can continue indexing normally" (C11) until the next injected fault
+fvars == <<vars, faultSeen, dirtyCommit, wfault>>
+Cause == wfault \/ Ev.nf > 0
 
 Same == UNCHANGED <<pend, commd, lo, metaop, payload, wopen, wCreated, dirty, sorted, kf>>
 
@@ -23,14 +27,14 @@ FHeal == Ev.ev = "heal" /\ faultSeen' = FALSE /\ Same
 \* add / delete / batch / delete_all failed: reported, nothing becomes pending
 FOpFail ==
   /\ Ev.ev \in {"add", "del", "run", "delete_all"} /\ ~Ev.ok /\ Ev.err # "nowriter"
-  /\ faultSeen /\ wopen
+  /\ faultSeen /\ wopen /\ Cause
   /\ Same /\ UNCHANGED faultSeen
 
 \* commit (or prepare_commit) failed: the storage holds the previous commit, or this one if the
 \* failure came after meta.json was replaced; the observation decides which
 FCommitFail ==
   /\ Ev.ev \in {"commit", "prepare_commit", "prepare_abort"} /\ ~Ev.ok /\ Ev.err # "nowriter"
-  /\ faultSeen /\ wopen
+  /\ faultSeen /\ wopen /\ Cause
   /\ ObsConsistent(Ev.obs) /\ ObsSorted(Ev.obs)
   /\ IF kf THEN TRUE ELSE (ObsDocs(Ev.obs) = commd \/ ObsDocs(Ev.obs) = pend)
   /\ commd' = ObsDocs(Ev.obs) /\ metaop' = Ev.obs.metaop /\ payload' = Ev.obs.payload
@@ -54,7 +58,7 @@ FWaitFail ==
   /\ UNCHANGED <<commd, lo, metaop, payload, wCreated, sorted, kf, faultSeen>>
 
 FGcFail ==
-  /\ Ev.ev = "gc" /\ ~Ev.ok /\ Ev.err # "nowriter" /\ faultSeen /\ wopen
+  /\ Ev.ev = "gc" /\ ~Ev.ok /\ Ev.err # "nowriter" /\ faultSeen /\ wopen /\ Cause
   /\ Same /\ UNCHANGED faultSeen
 
 \* a background merge that failed is confined: the explicit merge call reports it, content intact
@@ -92,7 +96,11 @@ FMergeStep ==
 DirtyNext == dirtyCommit' = CASE Ev.ev \in {"commit", "prepare_commit"} /\ ~Ev.ok /\ Ev.err # "nowriter" -> TRUE
                                 [] Ev.ev \in {"reset", "rollback", "prepare_abort", "new_writer", "heal"} -> FALSE
                                 [] OTHER -> dirtyCommit
-FNext == ((TNext /\ (Ev.ev = "merge" => Ev.ok) /\ faultSeen' = (IF Ev.ev = "reset" THEN FALSE ELSE faultSeen)) \/ FStep \/ FMergeStep) /\ DirtyNext
-FInit == TInit /\ faultSeen = FALSE /\ dirtyCommit = FALSE
+WNext == wfault' = CASE Ev.ev = "fault" -> TRUE
+                     [] Ev.ev = "reset" -> FALSE
+                     [] Ev.ev \in {"new_writer", "rollback"} /\ Ev.ok -> FALSE
+                     [] OTHER -> wfault
+FNext == ((TNext /\ (Ev.ev = "merge" => Ev.ok) /\ faultSeen' = (IF Ev.ev = "reset" THEN FALSE ELSE faultSeen)) \/ FStep \/ FMergeStep) /\ DirtyNext /\ WNext
+FInit == TInit /\ faultSeen = FALSE /\ dirtyCommit = FALSE /\ wfault = FALSE
 FSpec == FInit /\ [][FNext]_fvars
 =============================================================================
